@@ -186,7 +186,7 @@ def eval_case(case, rng):
     scene.stamp(items, rng, style)
     extra, mapargs = [], None
     if rng.random() < 0.3:
-        mapargs = [] if rng.random() < 0.5 else [f"443:{rng.randrange(1, 65536)}"]
+        mapargs = [] if rng.random() < 0.5 else [f"443:{tcpcap.map_target(rng)}"]
         extra = ["-m"] + mapargs
     res, files, argv = e2e.run_capture(scene.capture(items), scene.keylog_text([fl], rng), extra)
     out = {"cls": [fl.kind, fl.label.split("-")[1], fl.segkind, style, "v6" if fl.ep.v6 else "v4", "map" if mapargs is not None else ""],
